@@ -424,7 +424,14 @@ impl<'e> Builder<'e> {
                     let (a, _) = self.pure_expr(0, 9);
                     let (b, _) = self.pure_expr(0, 9);
                     let op = *self.e.pick(&[BinOp::Eq, BinOp::Ne, BinOp::Lt, BinOp::GtEq, BinOp::Gt, BinOp::LtEq]);
-                    let cond = Expr::bin(a, op, b);
+                    let mut cond = Expr::bin(a.clone(), op, b);
+                    if self.e.chance(1, 4) {
+                        // `.if defined(name)` / `.if !defined(nothing)`
+                        cond = match &a {
+                            Expr::Id { path, .. } => Expr::Defined(path.clone()),
+                            _ => Expr::Not(Box::new(Expr::Defined(vec!["zzundefined".to_string()]))),
+                        };
+                    }
                     let m = 1 + self.e.below(3);
                     // definitions inside conditionals are only visible when the branch is taken: keep bodies definition-free
                     self.in_loop += 1;
